@@ -18,6 +18,7 @@ import (
 	"path/filepath"
 	"sort"
 	"strings"
+	"sync/atomic"
 	"time"
 
 	"google.golang.org/grpc"
@@ -91,14 +92,16 @@ func (c cfgSpec) complete() bool {
 
 type addrs struct{ ingress, pull, grpc, admin string }
 
-func addrsFor(slot int) addrs {
-	base := 21000 + slot*8
-	return addrs{
-		ingress: fmt.Sprintf("127.0.0.1:%d", base),
-		pull:    fmt.Sprintf("127.0.0.1:%d", base+1),
-		grpc:    fmt.Sprintf("127.0.0.1:%d", base+2),
-		admin:   fmt.Sprintf("127.0.0.1:%d", base+3),
-	}
+// Every boot gets its own (purely symbolic, in-memory) host address: a
+// http.Server that is shut down before its Serve goroutine registered the
+// listener releases the address only asynchronously, so addresses are never
+// reused inside one process.
+var bootSeq atomic.Uint32
+
+func nextAddrs() addrs {
+	n := bootSeq.Add(1)
+	host := fmt.Sprintf("127.%d.%d.%d", 1+(n>>16)&0x7f, (n>>8)&0xff, n&0xff)
+	return addrs{ingress: host + ":18080", pull: host + ":19443", grpc: host + ":19943", admin: host + ":12019"}
 }
 
 // tokenRef writes the DSL reference for one token value. Src "envfile" spreads
@@ -152,6 +155,8 @@ func dsl(c cfgSpec, a addrs, dir string) string {
 	if c.HasC {
 		fmt.Fprintf(&b, "/rc { pull { path /ec%s } }\n", toks(c.C))
 	}
+	// a labelled push route without backlog, so that DELETE of a managed endpoint can take effect
+	b.WriteString("/rd { application \"appd\" endpoint_name \"epd\" deliver \"https://c11.example/hook\" { } }\n")
 	return b.String()
 }
 
@@ -194,9 +199,7 @@ type world struct {
 }
 
 func newWorld(spec cfgSpec, slot int, dir string) *world {
-	w := &world{spec: spec, slot: slot, dir: dir, ad: addrsFor(slot)}
-	w.text = dsl(spec, w.ad, filepath.Join(dir, "tok"))
-	return w
+	return &world{spec: spec, slot: slot, dir: dir}
 }
 
 func (w *world) shutdown() {
@@ -218,6 +221,8 @@ func (w *world) fresh() error {
 	}
 	w.shutdown()
 	w.store = queue.NewMemoryStore(queue.WithNowFunc(func() time.Time { return fixedNow }))
+	w.ad = nextAddrs()
+	w.text = dsl(w.spec, w.ad, filepath.Join(w.dir, "tok"))
 	a, err := app.VerifBoot(app.VerifBootOptions{Dir: filepath.Join(w.dir, "boot"), ConfigText: w.text, Store: w.store})
 	if err != nil {
 		return fmt.Errorf("boot %s: %w", w.spec.label(), err)
